@@ -29,7 +29,7 @@ class Contract:
 
     def __init__(self, name, target, setup, requires=None, ensures=None, raises=None, loops=None, callees=None,
                  canaries=(), dropped=(), decorators=None, generator=None, on_exit=None, note="", max_paths=400,
-                 class_models=None, timeout_ms=None, concretize=None, hints=None, stop_after=None, stop_before=None, rounds=None):
+                 class_models=None, timeout_ms=None, concretize=None, hints=None, stop_after=None, stop_before=None, rounds=None, ghost=None):
         self.name, self.target, self.setup = name, target, setup
         self.requires = requires or (lambda ctx, st: [])
         self.ensures = ensures or (lambda ctx, st, ret: [])
@@ -46,6 +46,7 @@ class Contract:
         self.timeout_ms = timeout_ms
         self.concretize = concretize
         self.stop_before = stop_before
+        self.ghost = ghost or []      # [(statement text prefix, fn(ip, env, st))] lemma invocations at program points
         self.rounds = rounds          # instantiation rounds for this contract (default: solve.ROUNDS)
         self.stop_after = stop_after    # text of the last statement of the verified prefix (ensures then receives the locals)
         self.hints = hints      # (ctx, st, skolem constants) -> terms to mention (guides hypothesis instantiation; adds no facts)
@@ -91,6 +92,8 @@ def run_contract(con, timeout_ms=10000, keep_models=True, verbose=False):
         core.CUR = ctx
         ip = Interp(ctx, registry=dict(con.callees))
         ip.class_models.update(con.class_models)
+        ip.ghost_before = [(pat, (lambda ip_, env_, fn=fn: fn(ip_, env_, holder_st["st"]))) for pat, fn in con.ghost]
+        holder_st = {"st": None}
         if con.stop_before is not None:
             import ast as _ast
             ip.stop_before = (lambda stmt, t=con.stop_before: _ast.unparse(stmt).replace(" ", "").replace('"', "'").startswith(t.replace(" ", "").replace('"', "'")))
@@ -106,6 +109,7 @@ def run_contract(con, timeout_ms=10000, keep_models=True, verbose=False):
             st = con.setup(ctx)
             ctx.assume(*con.requires(ctx, st))
             st.ctx, st.ip = ctx, ip
+            holder_st["st"] = st
             if con.generator is not None:
                 con.generator.install(ip, ctx, st)
             try:
